@@ -226,6 +226,9 @@ def parse_custom_metadata(text_element: Dict[str, any],
 
 def parse_textregion(text_region_dict: dict,
                      custom_tags: Iterable = None) -> Union[pdm.PageXMLTextRegion, None]:
+    if text_region_dict is None:
+        # an empty element (<TextRegion/>) has neither coordinates nor content
+        return None
     text_region = pdm.PageXMLTextRegion(
         doc_id=text_region_dict['@id'] if '@id' in text_region_dict else None,
         orientation=float(text_region_dict['@orientation']) if '@orientation' in text_region_dict else None,
